@@ -124,10 +124,16 @@ structure Ctx where
   tickPolled : Bool := false
   deriving DecidableEq, Repr, Inhabited
 
+inductive Cb | start | stop | eval | evt (h : Nat)
+  deriving DecidableEq, Repr, Inhabited
+
+def Cb.name : Cb → String
+  | .start => "on_start" | .stop => "on_stop" | .eval => "on_eval" | .evt h => s!"on_evt#{h}"
+
 /-- observable outputs (the canonical lines of the correspondence) -/
 inductive Out
   | ret (code : Int)
-  | invoke (cb : String) (m : ModId) (evts : List Evt)
+  | invoke (cb : Cb) (m : ModId) (evts : List Evt)
   | free (payload : Nat)
   | close (what : String)
   | note (s : String)
@@ -140,6 +146,16 @@ structure Trans where
   dst : MState
   deriving DecidableEq, Repr, Inhabited
 
+/-- one entry of a recorded poll result, by script handle (parsed by the driver from `ps:h1`, `fd:h1:5`,
+`tmr:h1:1000:u|b|t`, `tick`, `!quit`) -/
+inductive BatchTok
+  | ps (h : String)
+  | src (kind : SrcKind) (h : String) (key : Nat) (role : Role)
+  | tick
+  | forceQuit
+  | bad (s : String)
+  deriving DecidableEq, Repr, Inhabited
+
 structure St where
   ctx : Option Ctx := none
   mods : List Mod := []
@@ -150,17 +166,11 @@ structure St where
   holderPayload : List Nat := []
   out : List Out := []
   errno : Nat := 0
-  batches : List (List String) := []   -- recorded poll results still to be consumed (environment)
+  batches : List (List BatchTok) := []   -- recorded poll results still to be consumed (environment)
   handles : List (String × Nat) := []   -- script handle token → module id (driver bookkeeping)
   rx : List (String × String) := []    -- regex match table (pattern, topic) supplied by the environment
   trans : List Trans := []             -- ghost
   deriving Repr, Inhabited
-
-inductive Cb | start | stop | eval | evt (h : Nat)
-  deriving DecidableEq, Repr, Inhabited
-
-def Cb.name : Cb → String
-  | .start => "on_start" | .stop => "on_stop" | .eval => "on_eval" | .evt h => s!"on_evt#{h}"
 
 -- errno values used by the library
 def EPERM : Int := -1
